@@ -253,6 +253,124 @@ func TestC10Deep(t *testing.T) {
 	})
 }
 
+// hugeSegCase: a run of N equal bytes, optionally followed by one smaller byte
+// (ten million nested groups, open at the same time); sa and lcp are written
+// down directly, the groups are known in closed form.
+type hugeSegCase struct {
+	N       int  `json:"hugeRun"`
+	Smaller bool `json:"smallerByteBehind"`
+	MinLen  int  `json:"minLen"`
+	MaxLen  int  `json:"maxLen"`
+}
+
+func checkHugeSegCase(c hugeSegCase) (msg string, bad bool) {
+	defer func() {
+		if r := recover(); r != nil {
+			msg, bad = fmt.Sprintf("Segments panicked: %v", r), true
+		}
+	}()
+	n := c.N
+	total := n
+	if c.Smaller {
+		total++
+	}
+	sa := make([]int32, total)
+	lcp := make([]int32, total)
+	// suffix i of the run has n-i run bytes. Without the byte behind: sorted
+	// by length ascending, lcp[k] = k. With a smaller byte behind: that byte
+	// first, then the same order, lcp 0, 0, 1, 2, ...
+	o := 0
+	if c.Smaller {
+		sa[0] = int32(n)
+		o = 1
+	}
+	for k := 0; k < n; k++ {
+		sa[o+k] = int32(n - 1 - k)
+		lcp[o+k] = int32(k)
+	}
+	runLen := func(p int32) int { // number of run bytes suffix p starts with
+		if int(p) >= n {
+			return 0
+		}
+		return n - int(p)
+	}
+	if c.MinLen < 1 {
+		return "", false // the closed form below is for minLen >= 1
+	}
+	want := minInt(c.MaxLen, n-1) // m of the first callback: two suffixes of the run share at most n-1 bytes
+	calls := 0
+	var fail string
+	suffix.Segments(sa, lcp, c.MinLen, c.MaxLen, func(m int, seg []int32) {
+		calls++
+		if fail != "" {
+			return
+		}
+		if m != want {
+			fail = fmt.Sprintf("callback %d has m=%d; the groups of a run come with m = %d, %d, ... down to minLen", calls, m, minInt(c.MaxLen, n-1), minInt(c.MaxLen, n-1)-1)
+			return
+		}
+		want--
+		// the group for m: all suffixes with at least m run bytes
+		size := n - m + 1
+		if len(seg) != size {
+			fail = fmt.Sprintf("callback %d (m=%d) has %d members; %d suffixes share %d bytes", calls, m, len(seg), size, m)
+			return
+		}
+		if len(seg) <= 64 || calls <= 3 {
+			seen := map[int32]bool{}
+			for _, p := range seg {
+				if p < 0 || int(p) >= total || runLen(p) < m || seen[p] {
+					fail = fmt.Sprintf("callback %d (m=%d): member %d is out of range, too short or occurs twice", calls, m, p)
+					return
+				}
+				seen[p] = true
+			}
+		}
+	})
+	if fail != "" {
+		return fail, true
+	}
+	lo := c.MinLen
+	expect := minInt(c.MaxLen, n-1) - lo + 1
+	if expect < 0 {
+		expect = 0
+	}
+	if calls != expect {
+		return fmt.Sprintf("%d callbacks; a run of %d bytes has one group for every m from %d down to %d", calls, n, minInt(c.MaxLen, n-1), lo), true
+	}
+	return "", false
+}
+
+// TestC10Huge: see hugeSegCase. A failure of this kind may end the process (a
+// stack overflow cannot be recovered): the case is marked as running.
+func TestC10Huge(t *testing.T) {
+	st := statsFor("C10")
+	rapid.Check(t, func(t *rapid.T) {
+		c := hugeSegCase{N: 10_000_000 + 500_000*rapid.IntRange(0, 5).Draw(t, "hugeN"), Smaller: rapid.Bool().Draw(t, "smallerBehind")}
+		switch rapid.IntRange(0, 3).Draw(t, "hugeLens") {
+		case 0:
+			c.MinLen, c.MaxLen = c.N-3, c.N
+		case 1:
+			c.MinLen, c.MaxLen = c.N-2, 1<<31-1
+		case 2:
+			c.MinLen, c.MaxLen = 6_000_000-2, 6_000_000
+		default:
+			c.MinLen, c.MaxLen = c.N-1-rapid.IntRange(0, 40).Draw(t, "hugeBelow"), c.N+rapid.IntRange(-1, 1).Draw(t, "hugeAround")
+		}
+		markRunning("C10", "huge", c, "the process ended (fatal error of the Go runtime) while Segments worked on this case")
+		beginCase("C10", "huge", func() any { return c })
+		defer endCase()
+		msg, bad := checkHugeSegCase(c)
+		endCase()
+		clearRunning("C10", "huge")
+		if bad {
+			recordFailure("C10", "huge", c, msg)
+			t.Fatalf("C10 violated (huge run): %s", msg)
+		}
+		st.eval([]string{"huge-run:>=10^7-nested-groups"}, true, hashJSON(c), "huge", func() any { return c })
+	})
+}
+
 // TestC10Enum: all texts over {a,b} up to length $VERIF_C10_AB (default 9) and
 // over {a,b,c} up to $VERIF_C10_ABC (default 5), each with every
 // (minLen, maxLen), 0 <= minLen <= maxLen <= n+1.
@@ -308,6 +426,11 @@ func TestC10Enum(t *testing.T) {
 
 func init() {
 	replayers["C10"] = func(raw json.RawMessage) (string, bool, error) {
+		var h hugeSegCase
+		if err := json.Unmarshal(raw, &h); err == nil && h.N > 0 {
+			msg, bad := checkHugeSegCase(h)
+			return msg, bad, nil
+		}
 		var c segCase
 		if err := json.Unmarshal(raw, &c); err != nil {
 			return "", false, err
